@@ -176,9 +176,11 @@ def writeio (ρ : Nat → Reply) (s : St) (ok : OutKind) (name : String) (bytes 
 inductive FlushRes | ok | nmnf | herr
   deriving DecidableEq, Repr
 
-/-- `p->type == (io_type|io_mask) && p->mode == io_mode && (name == NULL || names equal)` -/
+/-- `p->type == (io_type|io_mask) && (name == NULL || names equal)` — like `prepare_for_write_io_data` the
+lookup does not compare the opening mode (`> f` and `>> f` are one stream; /repo d9f81b4).  A consequence
+mirrored by `fflushFold`: `fflush(name)` flushes a file stream twice, once for FILE and once for APFILE. -/
 def flushMatch (ok : OutKind) (name : Option String) (x : Strm) : Bool :=
-  decide (x.key.ty = ok.ty) && decide (x.key.mask = ok.mask) && decide (x.mode = ok.mode) &&
+  decide (x.key.ty = ok.ty) && decide (x.key.mask = ok.mask) &&
   (match name with | none => true | some n => decide (x.key.name = n))
 
 def flushLoop (ρ : Nat → Reply) (ok : OutKind) (name : Option String) : List Strm → St → Bool → St × FlushRes
